@@ -346,6 +346,27 @@ def formatH2Response (status : Nat) (fs : List Field) (fromH2 : Bool) : Block :=
   let hs := (pStatus, natDec status) :: fs
   if fromH2 then normalizeH2 hs else normalizeH1 hs
 
+/-! ### sending a recorded message (again) -/
+
+inductive Hop where
+  | h1 | h2
+deriving Repr, DecidableEq
+
+/-- One send of the recorded request `r` (version `fromH2`, buffered body) to the next hop: what is then stored in the
+    flow, and what goes on the wire.  `Http1Client.send` converts a COPY (`request.copy()`), `format_h2_request_headers`
+    pops Host out of a COPY of the headers (`headers.copy()`): the stored request is what it was. -/
+def sendRequest (r : Req) (fromH2 : Bool) (body : Bytes) : Hop → Req × (Bytes ⊕ Block)
+  | .h1 => (r, .inl (assembleRequestHead r.method r.path sHttp11 (if fromH2 then toH1Fields r body else r.fields) ++ body))
+  | .h2 => (r, .inr (formatH2Request r fromH2))
+
+/-- a history of sends of the same flow (the live exchange, then client replays), threading the stored request -/
+def sendAll (r : Req) (fromH2 : Bool) (body : Bytes) : List Hop → Req × List (Bytes ⊕ Block)
+  | [] => (r, [])
+  | h :: rest =>
+    let (r1, out) := sendRequest r fromH2 body h
+    let (r2, outs) := sendAll r1 fromH2 body rest
+    (r2, out :: outs)
+
 /-! ### Http1Server.send: conversion of an HTTP/2 response -/
 
 def reason (status : Nat) : Bytes := ((Gen.C06.reasons.find? (fun p => p.1 == status)).map (·.2)).getD []
